@@ -346,6 +346,9 @@ func C11(c *sim.Ctx) {
 
 	done := make(chan callResult, 1)
 	isDone := func() bool { return len(done) > 0 }
+	if careful {
+		markForeign()
+	}
 	// wait: every other goroutine of the bubble is blocked (or gone). Reports how many of them are
 	// stuck acquiring a lock (careful mode only; synctest.Wait() would not return at all then).
 	wait := func(spins int) (locked int) {
